@@ -128,6 +128,49 @@ def run(F, rep):
         # no parent
         sp = [n for n in f.walk() if n.get('k') == 'Call' and n.get('fn') == 'setParent' and n.get('c') and derived_from_copy(f, n['c'][0], cv)]
         rep.check(not sp, 'C11.P1', '%s::clone' % cls, f.where(), 'the copy is given a parent', 'no setParent on the copy')
+    # D2: values looked up by a computed index are handed to the copy only under the bound test
+    rep.rule('C11.D2', 'a value looked up on the copy by a computed index (c->variable(i) with i from indexOf) is handed to a cloned child only where the index is known to be in range (otherwise the lookup yields null and erases what the child\'s own clone() copied)')
+    n_d2 = 0
+    for cls in CLASSES:
+        f = clone_fn(F, cls)
+        cv = copy_var(f)
+        for n in f.walk():
+            if n.get('k') == 'Call' and n.get('mc') and n.get('fn', '').startswith('set') and len(n.get('c', [])) == 2:
+                a = n['c'][1]
+                while a.get('k') in ('Construct', 'Cast') and len(a.get('c', [])) == 1:
+                    a = a['c'][0]
+                src = a
+                if a.get('k') == 'Ref' and a.get('dk') == 'local':
+                    for v in f.walk():
+                        if v.get('k') == 'Var' and v.get('d') == a['d'] and v.get('c'):
+                            src = v['c'][0]
+                if not (src.get('k') == 'Call' and src.get('mc') and src.get('fn') in ('variable', 'reset', 'units', 'component') and len(src.get('c', [])) == 2 and derived_from_copy(f, src['c'][0], cv)):
+                    continue
+                idx = src['c'][1]
+                cnt = {'variable': 'variableCount()', 'reset': 'resetCount()', 'units': 'unitsCount()', 'component': 'componentCount()'}[src['fn']]
+                rc = ff(f).rendered_conds_at(n) or set()
+                if idx.get('k') == 'Call' and idx.get('fn') == 'indexOf':
+                    # the search result is used directly: no bound test is possible
+                    n_d2 += 1
+                    idx = {'n': render(idx)}
+                    ok = False
+                else:
+                    if idx.get('k') != 'Ref' or idx.get('dk') != 'local':
+                        continue
+                    ini = None
+                    for v in f.walk():
+                        if v.get('k') == 'Var' and v.get('d') == idx['d'] and v.get('c'):
+                            ini = v['c'][0]
+                    if ini is None or not (ini.get('k') == 'Call' and ini.get('fn') == 'indexOf'):
+                        continue
+                    n_d2 += 1
+                    ok = ('%s < %s' % (idx['n'], cnt), True) in rc or ('%s < c->%s' % (idx['n'], cnt), True) in rc
+                rep.check(ok, 'C11.D2', '%s::clone|%s(%s)' % (cls, n['fn'], render(src)[:40]), f.where(n),
+                          '`%s` is applied with `%s` although %s may be out of range (indexOf found nothing): the null result overwrites the variable copied by the child\'s own clone()' % (render(n)[:50], render(src), idx['n']),
+                          'under %s < %s' % (idx['n'], cnt))
+    if n_d2 < 2:
+        raise AnalysisBroken('C11.D2: %d index-based re-targeting sites in clone(), 2 confirmed' % n_d2)
+
     # E1
     m = clone_fn(F, 'Model')
     reach = F.reach([m.key])
@@ -138,3 +181,21 @@ def run(F, rep):
     rep.check(bool(carriers), 'C11.E1', 'Model::clone|equivalence-ids', m.where(),
               'Model::clone re-creates equivalences through %s only: mapping ids and connection ids of the original are not carried over to the copy' % sorted({a.short + '/%d' % len(a.params) for a in adders}),
               'ids carried by %s' % sorted({c.short for c in carriers}))
+
+    # E2: each equivalence id is carried over whenever it is non-empty, independently of the other one
+    rep.rule('C11.E2', 'in Model::clone the copy of a mapping (connection) id depends only on that id being non-empty, not on the other id')
+    setters = [c for c in m.walk() if c.get('k') == 'Call' and c.get('fn') in ('setEquivalenceMappingId', 'setEquivalenceConnectionId')]
+    for c in setters:
+        idarg = c['c'][-1]
+        idvar = idarg.get('n') if idarg.get('k') == 'Ref' else None
+        loops = [a for a in m.ancestors(c) if a.get('k') in ('For', 'RangeFor')]
+        base = set()
+        if loops:
+            body = role(loops[0], 'body')
+            first = body['c'][0] if body is not None and body.get('c') else None
+            if first is not None:
+                base = ff(m).rendered_conds_at(first) or set()
+        extra = (ff(m).rendered_conds_at(c) or set()) - base
+        foreign = [x for x in extra if idvar is None or idvar not in x[0]]
+        rep.check(idvar is not None and not foreign, 'C11.E2', 'Model::clone|%s' % c['fn'], m.where(c),
+                  '%s is only reached under %s, which does not concern the id being copied: the id is dropped although it is set on the original' % (c['fn'], foreign), 'depends only on `%s`' % idvar)
